@@ -250,7 +250,9 @@ func genBundle(r *vh.Rand) bundleT {
 						}
 						ls = append(ls, "    request {", "      field id string")
 						for f := 0; f < r.Intn(3); f++ {
-							for _, l := range genField(r, fmt.Sprintf("q%d", f), pool, nil, alias, used) {
+							// request fields may refer to declarations of earlier files and packages: the generated
+							// service sub-package file then needs imports of its own, next to those of the main file
+							for _, l := range genField(r, fmt.Sprintf("q%d", f), pool, avail, alias, used) {
 								ls = append(ls, "    "+l)
 							}
 						}
@@ -517,6 +519,103 @@ func sharedShortNameBundle() bundleT {
 			"b/foo/v1/t.j5s": thing("b.foo.v1", "four"),
 			"use/v1/a.j5s":   "package use.v1\n\nimport foo.v1\nimport foo.v2\nimport a.foo.v1\nimport b.foo.v1\n\nobject Use {\n  field t object:foo.Thing\n  field ts array:object:foo.Thing\n  field k enum:foo.Kind\n  field t1 object:foo.v1.Thing\n  field t2 object:foo.v2.Thing\n  field t3 object:a.foo.v1.Thing\n  field t4 object:b.foo.v1.Thing\n}\n",
 			"use/v1/b.j5s":   "package use.v1\n\nimport foo.v2\nimport foo.v1\n\nobject UseB {\n  field t object:foo.Thing\n  field t2 object:foo.v2.Thing\n}\n",
+		},
+	}
+}
+
+// customOptionBundle: options DEFINED by a hand-written .proto of the bundle (not one of the j5 / buf.validate annotations)
+// whose value holds maps of every key kind protobuf allows (the j5 annotations only ever hold map<string,string>), several
+// entries each, written in an order that is neither numeric nor textual; used on a message, a field, an enum value and a
+// method. The printer walks a map with Map.Range (Go map order) and has to order the entries itself, for every key kind.
+func customOptionBundle() bundleT {
+	entries := func(keys ...string) string {
+		var sb strings.Builder
+		for i, k := range keys {
+			if i > 0 {
+				sb.WriteString(", ")
+			}
+			fmt.Fprintf(&sb, "{key: %s, value: \"v%d\"}", k, i)
+		}
+		return sb.String()
+	}
+	signed := []string{"10", "-3", "2", "-20", "7", "100", "-1"}
+	unsigned := []string{"10", "3", "2", "20", "7", "100", "1"}
+	value := "{\n" +
+		"    by_sint32: [" + entries(signed...) + "]\n" +
+		"    by_sint64: [" + entries(signed...) + "]\n" +
+		"    by_fixed32: [" + entries(unsigned...) + "]\n" +
+		"    by_fixed64: [" + entries(unsigned...) + "]\n" +
+		"    by_sfixed32: [" + entries(signed...) + "]\n" +
+		"    by_sfixed64: [" + entries(signed...) + "]\n" +
+		"    by_int32: [" + entries(signed...) + "]\n" +
+		"    by_int64: [" + entries(signed...) + "]\n" +
+		"    by_uint32: [" + entries(unsigned...) + "]\n" +
+		"    by_uint64: [" + entries(unsigned...) + "]\n" +
+		"    by_bool: [{key: true, value: \"t\"}, {key: false, value: \"f\"}]\n" +
+		"    by_string: [" + entries(`"zeta"`, `"Alpha"`, `"alpha"`, `"10"`, `"2"`, `"mid"`, `""`) + "]\n" +
+		"  }"
+	return bundleT{
+		Packages: []string{"opt.v1", "use.v1"},
+		Content: map[string]string{
+			"opt/v1/options.proto": `syntax = "proto3";
+
+package opt.v1;
+
+import "google/protobuf/descriptor.proto";
+
+message Maps {
+  map<sint32, string> by_sint32 = 1;
+  map<sint64, string> by_sint64 = 2;
+  map<fixed32, string> by_fixed32 = 3;
+  map<fixed64, string> by_fixed64 = 4;
+  map<sfixed32, string> by_sfixed32 = 5;
+  map<sfixed64, string> by_sfixed64 = 6;
+  map<int32, string> by_int32 = 7;
+  map<int64, string> by_int64 = 8;
+  map<uint32, string> by_uint32 = 9;
+  map<uint64, string> by_uint64 = 10;
+  map<bool, string> by_bool = 11;
+  map<string, string> by_string = 12;
+}
+
+extend google.protobuf.MessageOptions {
+  Maps maps = 50001;
+}
+
+extend google.protobuf.FieldOptions {
+  Maps field_maps = 50002;
+}
+
+extend google.protobuf.EnumValueOptions {
+  Maps value_maps = 50003;
+}
+
+extend google.protobuf.MethodOptions {
+  Maps method_maps = 50004;
+}
+`,
+			"use/v1/use.proto": `syntax = "proto3";
+
+package use.v1;
+
+import "opt/v1/options.proto";
+
+message Thing {
+  option (opt.v1.maps) = ` + value + `;
+  string name = 1 [(opt.v1.field_maps) = ` + value + `];
+}
+
+enum Kind {
+  KIND_UNSPECIFIED = 0;
+  KIND_A = 1 [(opt.v1.value_maps) = ` + value + `];
+}
+
+service ThingService {
+  rpc Get(Thing) returns (Thing) {
+    option (opt.v1.method_maps) = ` + value + `;
+  }
+}
+`,
 		},
 	}
 }
